@@ -19,8 +19,9 @@ Reading of the statement used here
   still the carried mode after the state's encoding (an option that is carried but cannot take
   effect has not arrived).
 * options that mean nothing to the addressed route (pin options on a status route, `local`
-  with a value other than true/false, an unknown `filter`): refusing and performing are both
-  accepted (`either`).
+  with a value other than true/false, an unknown `filter`, a value of some other parameter with a
+  malformed percent-escape): refusing and performing are both accepted (`either`).  On `/add` every
+  parameter is an option of the route: a malformed escape anywhere is a malformed request.
 * "the response body is a single JSON document": exactly one document and nothing else; the
   exceptions are the responses that HTTP defines to have no body (204, and anything in answer to
   HEAD), a CORS preflight (answered by the CORS layer), and the 3xx redirect of a non-canonical
@@ -232,7 +233,7 @@ def localNames (r : Req) (op opLocal : String) : List String :=
 def decide' (junk : Bool) (w : Want) : Verdict := if junk then .either w else .perform w
 
 def verdict (e : Expect) (r : Req) : Verdict :=
-  let junk := optsBad r || localBad r || filterBad r
+  let junk := optsBad r || localBad r || filterBad r || hasGarbled r.query
   match e.shape with
   | .unit op => decide' junk ⟨[op], .unit⟩
   | .localUnit op opl => decide' junk ⟨localNames r op opl, .unit⟩
@@ -256,7 +257,7 @@ def verdict (e : Expect) (r : Req) : Verdict :=
      | _ => .malformed)
   | .pin op =>
     (match (varSeg "hash" e.pat r.segs).bind (·.cid), carried r.query r.md with
-     | some c, some o => decide' (localBad r || filterBad r) ⟨[op], .pin c o⟩
+     | some c, some o => decide' (localBad r || filterBad r || hasGarbled r.query) ⟨[op], .pin c o⟩
      | _, _ => .malformed)
   | .unpin op =>
     (match (varSeg "hash" e.pat r.segs).bind (·.cid) with
@@ -264,7 +265,7 @@ def verdict (e : Expect) (r : Req) : Verdict :=
      | none => .malformed)
   | .pinPath op =>
     (match pathOf e.pat r.segs, carried r.query r.md with
-     | some p, some o => decide' (localBad r || filterBad r) ⟨[op], .path p o⟩
+     | some p, some o => decide' (localBad r || filterBad r || hasGarbled r.query) ⟨[op], .path p o⟩
      | _, _ => .malformed)
   | .unpinPath op =>
     (match pathOf e.pat r.segs with
@@ -274,8 +275,8 @@ def verdict (e : Expect) (r : Req) : Verdict :=
     decide' junk ⟨[op], .str (match varSeg "name" e.pat r.segs with | some s => s.txt | none => "")⟩
   | .statusFilter op opl =>
     (match getq r.query "filter" with
-     | .valid (.str m) => decide' (optsBad r || localBad r) ⟨localNames r op opl, .num m⟩
-     | .empty => decide' (optsBad r || localBad r) ⟨localNames r op opl, .num "0"⟩
+     | .valid (.str m) => decide' (optsBad r || localBad r || hasGarbled r.query) ⟨localNames r op opl, .num m⟩
+     | .empty => decide' (optsBad r || localBad r || hasGarbled r.query) ⟨localNames r op opl, .num "0"⟩
      | _ => .either ⟨localNames r op opl, .num "0"⟩)
   | .typeFilter op => decide' junk ⟨[op], .unit⟩
   | .add => .malformed     -- a request of this kind has no multipart body (the add endpoint proper: `addClauses`)
@@ -402,7 +403,7 @@ def versionContradiction (q : List (String × QV)) : Bool :=
 
 def addMalformed (r : AddReq) : Bool :=
   r.mp != .ok || (carried r.query r.md).isNone || !addOptionsOk r.query || bodyMismatch r.query ||
-  versionContradiction r.query
+  versionContradiction r.query || hasGarbled r.query
 
 /-- the options compared on the add route: everything but mode and pin-update -/
 def addCmp (o : Opts) : Opts := canonOpts { o with mode := .recursive, update := none }
